@@ -152,4 +152,31 @@ theorem unop_minus_matrix (a : Mat K) (op : Tok K) (hop : op.tag = .minus) :
     unop op (.matrix a) = .ok (.matrix (Mat.neg a)) := by
   unfold unop; simp only [hop]
 
+/-! ### the four matrix builtins, after the arity and domain checks of `callNative` -/
+
+theorem nativeBody_determinant (m : Mat K) (line col : Nat) :
+    nativeBody "determinant".toList line col [.matrix m]
+      = (Mat.det m).bind fun d => .ok (.number d) := by
+  unfold nativeBody; simp [matArg, Res.bind]
+
+theorem nativeBody_transpose (m : Mat K) (line col : Nat) :
+    nativeBody "transpose".toList line col [.matrix m]
+      = (Mat.transpose m).bind fun t => .ok (.matrix t) := by
+  unfold nativeBody; simp [matArg, Res.bind]
+
+theorem nativeBody_inverse_none {m : Mat K} (h : Mat.inverse m = .ok none) (line col : Nat) :
+    nativeBody "inverse".toList line col [.matrix m]
+      = .diag ⟨.noInverseForMatrix, line, col, []⟩ := by
+  unfold nativeBody; simp [matArg, Res.bind, h]
+
+theorem nativeBody_inverse_some {m inv : Mat K} (h : Mat.inverse m = .ok (some inv))
+    (line col : Nat) :
+    nativeBody "inverse".toList line col [.matrix m] = .ok (.matrix inv) := by
+  unfold nativeBody; simp [matArg, Res.bind, h]
+
+theorem nativeBody_identity (z : K) (line col : Nat) :
+    nativeBody "identity".toList line col [.number z]
+      = (Mat.identity (Kernel.reToNat z)).bind fun m => .ok (.matrix m) := by
+  unfold nativeBody; simp [numArg, Res.bind]
+
 end Calc
